@@ -32,7 +32,8 @@ def _poly2_case(draw):
     kind = draw(st.sampled_from(["tangential", "cyclic", "regular", "rectangle", "kite", "triangle", "convex", "nonconvex"]))
     n = draw(st.integers(3, 14))
     return {"kind": kind, "n": n, "noise": draw(noise(2 * n + 4)), "emb": draw(gp.embedding()), "poly": draw(gp.simple_polygon(max_n=12, kinds=("star", "comb", "untangled"))),
-            "logs": draw(st.sampled_from([0.0, 0.0, 0.0, -3.0, 3.0, -6.0, 6.0, -8.0]))}
+            "logs": draw(st.sampled_from([0.0, 0.0, 0.0, -3.0, 3.0, -6.0, 6.0, -8.0])),
+            "far": draw(st.sampled_from([None, None, None, 3.0, 3.5, 4.0]))}
 
 
 def build_poly2(case):
@@ -208,6 +209,12 @@ def _polygon(case, rec):
         logs = 5.0
     scale = 10.0 ** logs
     V = em["verts"] * scale
+    if case.get("far") and logs == 0.0:
+        # the same polygon 1e3..1e4 of its sizes away, moved within its own plane: whether a circum-/in-circle exists is
+        # a property of the figure (tolerances tied to the distance from the origin would get it wrong)
+        u_, v_, _ = geom.plane_frame(em["nplus"])
+        V = V + 10.0 ** case["far"] * 2 * float(np.max(np.linalg.norm(V - V.mean(axis=0), axis=1))) * (0.6 * u_ - 0.8 * v_)
+        rec.label("far:1e%g" % case["far"])
     arg = em["normal_arg"]
     kind = case["kind"]
     convex = kind != "nonconvex"
@@ -228,18 +235,21 @@ def _polygon(case, rec):
     rec.nontrivial = kind in ("rectangle", "kite", "convex", "nonconvex") or len(V) == 4 or scale != 1
     _min_ball(rec, obj, "minimal_bounding_circle", V, sig)
     d = np.linalg.norm(V - cen, axis=1)
+    # the centred circles sit on the class's centroid, an origin-based integral conditioned like eps*L*(L/D)^2 (C04):
+    # far from the origin that term dominates (and makes these four comparisons vacuous beyond ~1e3 sizes)
+    tol_c = 1e-9 * (size + maxnorm(V)) + 1e3 * 2.0**-52 * maxnorm(V) * max(1.0, maxnorm(V) / size) ** 2
     if cls is S.ConvexPolygon:
         b = _ball(rec, obj, "minimal_centered_bounding_circle", sig)
         if not isinstance(b, Raised):
-            rec.close("centred_bounding_centre", b.centroid, cen, 1e-9 * (size + maxnorm(V)), sig)
-            rec.close("centred_bounding_radius", b.radius, d.max(), 1e-9 * (size + maxnorm(V)), sig)
+            rec.close("centred_bounding_centre", b.centroid, cen, tol_c, sig)
+            rec.close("centred_bounding_radius", b.radius, d.max(), tol_c, sig)
         b = _ball(rec, obj, "maximal_centered_bounded_circle", sig)
         if not isinstance(b, Raised):
             P2 = np.roll(V, -1, axis=0)
             e = P2 - V
             dist = np.linalg.norm(np.cross(cen - V, e), axis=1) / np.linalg.norm(e, axis=1)
-            rec.close("centred_bounded_centre", b.centroid, cen, 1e-9 * (size + maxnorm(V)), sig)
-            rec.close("centred_bounded_radius", b.radius, dist.min(), 1e-9 * (size + maxnorm(V)), sig)
+            rec.close("centred_bounded_centre", b.centroid, cen, tol_c, sig)
+            rec.close("centred_bounded_radius", b.radius, dist.min(), tol_c, sig)
     # circumcircle
     cc, rr, mis = fit_circumball(V)
 
